@@ -170,7 +170,7 @@ static void signature_case(World &W)
 		if (p.get("jump", 0)) W.set_clock(1, now + (time_t)p.get("jump", 0));
 		verified = sig->VerifyData(VK->sexp, wdoc, 0);
 	}
-	if (sig) delete sig;
+	if (parsed && sig) delete sig; // on failure the library has already released the object (the pointer is left dangling)
 	bool accepted = good && timevalid && verified;
 	W.S.hist.add(H_RESULT, (parsed ? 1 : 0) | (good ? 2 : 0) | (timevalid ? 4 : 0) | (verified ? 8 : 0), fault);
 	std::ostringstream ctx; ctx << "key=" << K.name << " hash=" << (int)H << " doc=" << doc.size() << " Ts-Tk=" << (long)(Ts - TK) << " expiry=" << (long)E << " now-Ts=" << (long)(now - Ts) << " fault=" << what;
@@ -294,6 +294,144 @@ static void aead_case(World &W)
 	else if (ok) W.violate("C20", "tampered_message_decrypts", "AEAD decryption succeeded although " + what + "; " + ctx.str());
 }
 
+// ---- structure-aware damage of whole artefacts (C12 for the OpenPGP parsers, certifications for C20)
+struct Pkt { tmcg_openpgp_byte_t tag; tmcg_openpgp_octets_t body; };
+
+static bool split_packets(const tmcg_openpgp_octets_t &in, std::vector<Pkt> &out)
+{
+	// new-format headers with one-, two- or five-octet lengths, as the library's encoders emit them
+	size_t o = 0;
+	while (o < in.size())
+	{
+		if ((in[o] & 0xC0) != 0xC0 || o + 1 >= in.size()) return false;
+		Pkt p; p.tag = in[o] & 0x3F; o++;
+		size_t len;
+		if (in[o] < 192) { len = in[o]; o += 1; }
+		else if (in[o] < 224) { if (o + 1 >= in.size()) return false; len = ((size_t)(in[o] - 192) << 8) + in[o + 1] + 192; o += 2; }
+		else if (in[o] == 255) { if (o + 4 >= in.size()) return false; len = ((size_t)in[o + 1] << 24) + ((size_t)in[o + 2] << 16) + ((size_t)in[o + 3] << 8) + in[o + 4]; o += 5; }
+		else return false;
+		if (o + len > in.size()) return false;
+		p.body.assign(in.begin() + o, in.begin() + o + len); o += len;
+		out.push_back(p);
+	}
+	return true;
+}
+
+static void join_packets(const std::vector<Pkt> &in, tmcg_openpgp_octets_t &out)
+{
+	out.clear();
+	for (size_t i = 0; i < in.size(); i++) { tmcg_openpgp_octets_t t; repacket(in[i].tag, in[i].body, t); out.insert(out.end(), t.begin(), t.end()); }
+}
+
+static void build_keyblock(const Key &K, time_t Ts, tmcg_openpgp_octets_t &all, std::string &uidstr)
+{
+	uidstr = "Test <test@example.org>";
+	tmcg_openpgp_octets_t uid, trailer, hash, left, sigpkt, flags, empty;
+	PGP::PacketUidEncode(uidstr, uid);
+	flags.push_back(0x01 | 0x02);
+	PGP::PacketSigPrepareSelfSignature(TMCG_OPENPGP_SIGNATURE_POSITIVE_CERTIFICATION, K.algo, TMCG_OPENPGP_HASHALGO_SHA256, Ts, 0, flags, K.keyid, false, trailer);
+	PGP::CertificationHash(K.pub_hashing, uidstr, empty, trailer, TMCG_OPENPGP_HASHALGO_SHA256, hash, left);
+	gcry_mpi_t r = gcry_mpi_new(2048), s2 = gcry_mpi_new(2048);
+	if (K.algo == TMCG_OPENPGP_PKALGO_RSA) { if (!PGP::AsymmetricSignRSA(hash, K.sexp, TMCG_OPENPGP_HASHALGO_SHA256, s2)) PGP::PacketSigEncode(trailer, left, s2, sigpkt); }
+	else if (K.algo == TMCG_OPENPGP_PKALGO_DSA) { if (!PGP::AsymmetricSignDSA(hash, K.sexp, r, s2)) PGP::PacketSigEncode(trailer, left, r, s2, sigpkt); }
+	else { if (!PGP::AsymmetricSignECDSA(hash, K.sexp, r, s2)) PGP::PacketSigEncode(trailer, left, r, s2, sigpkt); }
+	gcry_mpi_release(r); gcry_mpi_release(s2);
+	all = K.pub; all.insert(all.end(), uid.begin(), uid.end()); all.insert(all.end(), sigpkt.begin(), sigpkt.end());
+}
+
+static void artefact_case(World &W)
+{
+	const Plan &p = W.plan;
+	const Key &K = g_keys[(size_t)p.get("key", 0) % 3];
+	int art = (int)(p.get("art", 0) % 3);          // 0 key block (key, user ID, certification), 1 detached signature, 2 SEIPD message
+	int dmg = (int)(p.get("fault", 0) % 7);        // 0 none, 1 body truncated (re-encoded), 2 body byte flipped, 3 packet dropped, 4 packet duplicated, 5 two packets exchanged, 6 body extended
+	int64_t fa = p.get("fa", 0), fb = p.get("fb", 0), fc = p.get("fc", 0);
+	time_t Ts = TK + 86400;
+	W.set_clock(0, Ts);
+	tmcg_openpgp_octets_t all, doc; std::string uidstr;
+	tmcg_openpgp_secure_octets_t seskey;
+	make_doc(W, 2, doc);
+	if (art == 0) build_keyblock(K, Ts, all, uidstr);
+	else if (art == 1)
+	{
+		tmcg_openpgp_octets_t trailer, hash, left;
+		PGP::PacketSigPrepareDetachedSignature(TMCG_OPENPGP_SIGNATURE_BINARY_DOCUMENT, K.algo, TMCG_OPENPGP_HASHALGO_SHA256, Ts, 0, "", K.keyid, trailer);
+		PGP::BinaryDocumentHash(doc, trailer, TMCG_OPENPGP_HASHALGO_SHA256, hash, left);
+		gcry_mpi_t r = gcry_mpi_new(2048), s2 = gcry_mpi_new(2048);
+		if (K.algo == TMCG_OPENPGP_PKALGO_RSA) { if (!PGP::AsymmetricSignRSA(hash, K.sexp, TMCG_OPENPGP_HASHALGO_SHA256, s2)) PGP::PacketSigEncode(trailer, left, s2, all); }
+		else if (K.algo == TMCG_OPENPGP_PKALGO_DSA) { if (!PGP::AsymmetricSignDSA(hash, K.sexp, r, s2)) PGP::PacketSigEncode(trailer, left, r, s2, all); }
+		else { if (!PGP::AsymmetricSignECDSA(hash, K.sexp, r, s2)) PGP::PacketSigEncode(trailer, left, r, s2, all); }
+		gcry_mpi_release(r); gcry_mpi_release(s2);
+	}
+	else
+	{
+		tmcg_openpgp_octets_t lit, prefix, enc, hash, mdc, mdc_hashing, litmdc;
+		PGP::PacketLitEncode(doc, lit);
+		if (PGP::SymmetricEncryptAES256(lit, seskey, prefix, true, enc)) return;
+		enc.clear();
+		mdc_hashing.insert(mdc_hashing.end(), prefix.begin(), prefix.end()); mdc_hashing.insert(mdc_hashing.end(), lit.begin(), lit.end());
+		mdc_hashing.push_back(0xD3); mdc_hashing.push_back(0x14);
+		PGP::HashCompute(TMCG_OPENPGP_HASHALGO_SHA1, mdc_hashing, hash); PGP::PacketMdcEncode(hash, mdc);
+		litmdc = lit; litmdc.insert(litmdc.end(), mdc.begin(), mdc.end());
+		seskey.clear();
+		if (PGP::SymmetricEncryptAES256(litmdc, seskey, prefix, false, enc)) return;
+		PGP::PacketSeipdEncode(enc, all);
+	}
+	if (all.empty()) { W.res.cnt["probe.sign_failed"]++; return; }
+	std::vector<Pkt> pk;
+	if (!split_packets(all, pk) || pk.empty()) { W.violate("C20", "own_artefact_not_splittable", "emitted artefact does not consist of new-format packets"); return; }
+	bool damaged = false; std::string what = "none";
+	size_t pi = (size_t)fa % pk.size();
+	switch (dmg)
+	{
+		case 1: { size_t keep = pk[pi].body.empty() ? 0 : (size_t)fb % pk[pi].body.size(); pk[pi].body.resize(keep); damaged = true; what = "body of packet " + std::to_string(pi) + " (tag " + std::to_string((int)pk[pi].tag) + ") truncated to " + std::to_string(keep); W.res.cnt["fault.art_trunc_reencoded"]++; break; }
+		case 2: if (!pk[pi].body.empty()) { size_t off = (size_t)fb % pk[pi].body.size(); pk[pi].body[off] ^= (tmcg_openpgp_byte_t)(1 << (fc % 8)); damaged = true; what = "bit flipped in packet " + std::to_string(pi) + " (tag " + std::to_string((int)pk[pi].tag) + ") at " + std::to_string(off); W.res.cnt["fault.art_flip_any"]++; } break;
+		case 3: if (pk.size() > 1) { pk.erase(pk.begin() + pi); damaged = true; what = "packet " + std::to_string(pi) + " dropped"; W.res.cnt["fault.art_droppacket"]++; } break;
+		case 4: pk.insert(pk.begin() + pi, pk[pi]); damaged = true; what = "packet " + std::to_string(pi) + " duplicated"; W.res.cnt["fault.art_duppacket"]++; break;
+		case 5: if (pk.size() > 1) { std::swap(pk[pi], pk[(pi + 1) % pk.size()]); damaged = true; what = "packets exchanged"; W.res.cnt["fault.art_reorder"]++; } break;
+		case 6: { size_t add = 1 + (size_t)fb % 300; for (size_t i = 0; i < add; i++) pk[pi].body.push_back((tmcg_openpgp_byte_t)(fc + i)); damaged = true; what = "body of packet " + std::to_string(pi) + " extended by " + std::to_string(add); W.res.cnt["fault.art_extend_reencoded"]++; break; }
+	}
+	tmcg_openpgp_octets_t wire; join_packets(pk, wire);
+	if (!damaged && wire != all) { W.violate("C20", "reencoding_differs", "re-encoding the packets of an emitted artefact changes it"); return; }
+	// ---- receiving node
+	W.set_clock(1, Ts + 10);
+	int outcome = 0;
+	if (art == 0)
+	{
+		TMCG_OpenPGP_Pubkey *pub = NULL; TMCG_OpenPGP_Keyring ring;
+		bool ok = PGP::PublicKeyBlockParse(wire, 0, pub);
+		bool self = false;
+		if (ok && pub) { self = pub->CheckSelfSignatures(&ring, 0); outcome = self ? 3 : 1; if (self) { (void)pub->Weak(0); } }
+		if (ok && pub) delete pub; // on failure the library has already released the object
+		// the only certification covers the key packet and the user ID: a changed bit in either must leave no valid self-signature
+		if (damaged && dmg == 2 && pi <= 1 && ok && self) W.violate("C20", "tampered_keyblock_selfsig_valid", "self-signature check succeeds although " + what + "; key=" + std::string(K.name));
+		if (damaged && dmg == 3 && pi == 2 && ok && self) W.violate("C20", "uncertified_keyblock_valid", "self-signature check succeeds although the certification was removed; key=" + std::string(K.name));
+		if (!damaged && !(ok && self)) W.violate("C20", "own_keyblock_rejected", "key block made by the library fails PublicKeyBlockParse/CheckSelfSignatures; key=" + std::string(K.name));
+	}
+	else if (art == 1)
+	{
+		TMCG_OpenPGP_Signature *sig = NULL;
+		bool ok = PGP::SignatureParse(wire, 0, sig);
+		bool v = false;
+		if (ok && sig && sig->Good()) { (void)sig->CheckValidity(TK, 0); v = sig->VerifyData(K.sexp, doc, 0); }
+		if (ok && sig) delete sig;
+		outcome = (ok ? 1 : 0) | (v ? 2 : 0);
+		if (!damaged && !v) W.violate("C20", "own_signature_rejected", "untampered signature does not verify; key=" + std::string(K.name));
+	}
+	else
+	{
+		TMCG_OpenPGP_Message *msg = NULL; tmcg_openpgp_octets_t dec;
+		bool ok = PGP::MessageParse(wire, 0, msg);
+		bool d = false;
+		if (ok && msg) d = msg->Decrypt(seskey, 0, dec);
+		if (msg) delete msg;
+		outcome = (ok ? 1 : 0) | (d ? 2 : 0);
+		if (!damaged && !d) W.violate("C20", "own_message_not_decrypted", "message made by the library does not decrypt");
+		if (damaged && d && dmg != 4 && dmg != 3) W.violate("C20", "tampered_message_decrypts", "decryption succeeded although " + what);
+	}
+	W.S.hist.add(H_RESULT, (uint64_t)outcome, (uint64_t)dmg, (uint64_t)art);
+}
+
 } // namespace
 
 static Plan pgp_generate(uint64_t seed, const Tier &tier)
@@ -302,7 +440,8 @@ static Plan pgp_generate(uint64_t seed, const Tier &tier)
 	Rng g(derive(seed, 1));
 	bool c12 = (p.property == "C12");
 	unsigned r = (unsigned)g.below(10);
-	int kind = (r < 6) ? 0 : ((r < 8) ? 1 : 2);
+	int kind = (r < 5) ? 0 : ((r < 7) ? 1 : ((r < 8) ? 2 : 3));
+	if (c12 && g.chance(1, 2)) kind = 3;
 	p.cfg["kind"] = kind;
 	p.cfg["doc"] = (int64_t)g.below(6);
 	p.cfg["fa"] = (int64_t)g.below(1 << 20); p.cfg["fb"] = (int64_t)g.below(8);
@@ -320,6 +459,11 @@ static Plan pgp_generate(uint64_t seed, const Tier &tier)
 		p.cfg["jump"] = g.chance(1, 8) ? (g.chance(1, 2) ? 86400 * 800 : -86400 * 800) : 0;
 		unsigned f = (unsigned)g.below(16);
 		p.cfg["fault"] = !faults ? 0 : (c12 ? (int64_t)(6 + g.below(3)) : (f < 5 ? 0 : (int64_t)(1 + (f - 5) % 8)));
+	}
+	else if (kind == 3)
+	{
+		p.cfg["key"] = (int64_t)g.below(3); p.cfg["art"] = (int64_t)g.below(3); p.cfg["fc"] = (int64_t)g.below(256);
+		p.cfg["fault"] = !faults ? 0 : (int64_t)g.below(7);
 	}
 	else if (kind == 1) { unsigned f = (unsigned)g.below(12); p.cfg["fault"] = !faults ? 0 : (c12 ? (g.chance(1, 2) ? 2 : 6) : (f < 4 ? 0 : (int64_t)(1 + (f - 4) % 6))); }
 	else
@@ -342,14 +486,24 @@ static void pgp_enumerate(const Tier &tier, std::vector<Plan> &out)
 			p.cfg["fault"] = 6; p.cfg["fa"] = (int64_t)keep; p.cfg["fb"] = 0; p.cfg["enumerated"] = 1;
 			out.push_back(p);
 		}
+	// every packet of a key block, a detached signature and a message: body truncated at offsets 0..N
+	for (int art = 0; art < 3; art++)
+		for (int key = 0; key < 3; key += (art == 0 ? 1 : 3))
+			for (size_t pkt = 0; pkt < (art == 0 ? 3u : 1u); pkt++)
+				for (size_t keep = 0; keep < (tier.thorough ? 600u : 300u); keep++)
+				{
+					Plan p; p.seed = 8000000 + art * 100000 + key * 10000 + pkt * 1000 + keep; p.property = tier.property.empty() ? "C20" : tier.property;
+					p.cfg["kind"] = 3; p.cfg["art"] = art; p.cfg["key"] = key; p.cfg["fault"] = 1; p.cfg["fa"] = (int64_t)pkt; p.cfg["fb"] = (int64_t)keep; p.cfg["fc"] = 0; p.cfg["doc"] = 2; p.cfg["enumerated"] = 1;
+					out.push_back(p);
+				}
 }
 
 static RunResult pgp_execute(const Plan &plan)
 {
 	World W(plan);
-	int kind = (int)(plan.get("kind", 0) % 3);
-	if (kind == 0) signature_case(W); else if (kind == 1) message_case(W); else aead_case(W);
-	W.res.cnt[kind == 0 ? "probe.signature_cases" : (kind == 1 ? "probe.seipd_cases" : "probe.aead_cases")]++;
+	int kind = (int)(plan.get("kind", 0) % 4);
+	if (kind == 0) signature_case(W); else if (kind == 1) message_case(W); else if (kind == 2) aead_case(W); else artefact_case(W);
+	W.res.cnt[kind == 0 ? "probe.signature_cases" : (kind == 1 ? "probe.seipd_cases" : (kind == 2 ? "probe.aead_cases" : "probe.artefact_cases"))]++;
 	W.res.fingerprint = W.S.hist.h ^ derive(plan.seed, 3); W.res.steps = 1; W.res.sim_ms = 0;
 	W.res.nontrivial = plan.get("fault", 0) != 0 || plan.get("now_off", 10) != 10 || plan.get("jump", 0) != 0;
 	return W.res;
@@ -359,9 +513,9 @@ int main(int argc, char **argv)
 {
 	Scenario sc;
 	sc.name = "pgp";
-	sc.real_components = "src/CallasDonnerhackeFinneyShawThayerRFC4880.cc: signature preparation, document hashing, RSA/DSA/ECDSA sign and verify wrappers, packet encoders, SignatureParse/MessageParse and the sub-packet decoders, TMCG_OpenPGP_Signature::CheckValidity/VerifyData, CFB+MDC and AEAD (OCB/EAX) encryption and decryption, TMCG_OpenPGP_Message::Decrypt; libgcrypt";
+	sc.real_components = "src/CallasDonnerhackeFinneyShawThayerRFC4880.cc: signature preparation, document hashing, RSA/DSA/ECDSA sign and verify wrappers, packet encoders, SignatureParse/MessageParse and the sub-packet decoders, TMCG_OpenPGP_Signature::CheckValidity/VerifyData, CFB+MDC and AEAD (OCB/EAX) encryption and decryption, TMCG_OpenPGP_Message::Decrypt, PublicKeyBlockParse with TMCG_OpenPGP_Pubkey::CheckSelfSignatures (key + user ID + positive certification built with PacketSigPrepareSelfSignature/CertificationHash); libgcrypt";
 	sc.stub_components = "the wall clock of the two nodes (per-node simulated clock, jumps), the artefact channel between signer/encryptor and verifier/decryptor; keys are fixed test keys; libgcrypt-internal randomness (DSA/ECDSA nonces, RSA blinding) is outside the seam, so only outcomes enter the fingerprint; no GnuPG cross-check";
-	sc.rule = "seeded: detached binary signatures (RSA-2048, DSA-2048, ECDSA P-256) x hash (3 strong, 2 weak) x documents (empty .. 20 kB, mixed line endings) x verifier clock at the boundaries of every validity rule (creation-1, creation, expiry-1, expiry, expiry+1, 25 h +-1 s ahead, signature older than key, clock jump between the checks) against a reference model of the rules, x artefact faults (bit flip in a hashed field / signature value / unhashed area / anywhere, document altered, other key, body truncated with re-encoded length, artefact truncated); SEIPD+MDC messages and AEAD (OCB, EAX; chunk 64..256; lengths around chunk boundaries) x {ciphertext flip, truncation, tag dropped, chunks exchanged or removed, associated data or nonce altered, wrong session key, unprotected packet}; enumerated: signature-packet body truncated at every offset for three key types; distinct = outcome fingerprint per case";
+	sc.rule = "seeded: detached binary signatures (RSA-2048, DSA-2048, ECDSA P-256) x hash (3 strong, 2 weak) x documents (empty .. 20 kB, mixed line endings) x verifier clock at the boundaries of every validity rule (creation-1, creation, expiry-1, expiry, expiry+1, 25 h +-1 s ahead, signature older than key, clock jump between the checks) against a reference model of the rules, x artefact faults (bit flip in a hashed field / signature value / unhashed area / anywhere, document altered, other key, body truncated with re-encoded length, artefact truncated); SEIPD+MDC messages and AEAD (OCB, EAX; chunk 64..256; lengths around chunk boundaries) x {ciphertext flip, truncation, tag dropped, chunks exchanged or removed, associated data or nonce altered, wrong session key, unprotected packet}; enumerated: signature-packet body truncated at every offset for three key types; distinct = outcome fingerprint per case; whole artefacts (key block = key, user ID, certification; detached signature; SEIPD message) split into packets and damaged structurally: body of any packet truncated / extended with re-encoded length, bit flipped, packet dropped / duplicated / exchanged, then PublicKeyBlockParse+CheckSelfSignatures / SignatureParse+VerifyData / MessageParse+Decrypt; enumerated: every body length 0..299 (thorough 0..599) of every packet of these artefacts";
 	sc.generate = pgp_generate; sc.execute = pgp_execute; sc.enumerate = pgp_enumerate; sc.worker_init = pgp_init;
 	return runner_main(argc, argv, sc);
 }
